@@ -221,4 +221,32 @@ mod verif_kani_message {
             }
         }
     }
+    // C11 (bounded): the two builder queries that VX assumes (iterator adaptors any / find over the SmallVec of types):
+    // a builder holding three raw zero-length attributes of symbolic, pairwise different, non-sealing types.
+    #[kani::proof]
+    #[kani::unwind(6)]
+    fn k11_builder_queries_small() {
+        let t: [u16; 3] = kani::any();
+        kani::assume(t[0] != t[1] && t[0] != t[2] && t[1] != t[2]);
+        let mut i = 0;
+        while i < 3 { kani::assume(t[i] != 0x0008 && t[i] != 0x001c && t[i] != 0x8028); i += 1; }
+        // (builder_request draws a random id: rand is outside Kani's reach - internal compiler error - so the id is symbolic)
+        let mut b = Message::builder(MessageType::from_class_method(MessageClass::Request, BINDING), TransactionId::from(kani::any::<u128>()));
+        let empty: [u8; 0] = [];
+        let mut i = 0;
+        while i < 3 {
+            let r = b.add_raw_attribute(RawAttribute::new(AttributeType::new(t[i]), &empty));
+            assert!(r.is_ok());
+            i += 1;
+        }
+        let q: u16 = kani::any();
+        let present = q == t[0] || q == t[1] || q == t[2];
+        assert!(b.has_attribute(AttributeType::new(q)) == present);
+        // first element of the builder's list that is one of the two asked for
+        let q2: u16 = kani::any();
+        let among = |x: u16| x == q || x == q2;
+        let expect = if among(t[0]) { Some(t[0]) } else if among(t[1]) { Some(t[1]) } else if among(t[2]) { Some(t[2]) } else { None };
+        let got = b.has_any_attribute(&[AttributeType::new(q), AttributeType::new(q2)]).map(|a| a.value());
+        assert!(got == expect);
+    }
 }
